@@ -40,6 +40,11 @@ theorem generated_eq_rfc : GoNfsd.Gen.Xdr.types = GoNfsd.Spec.Rfc1813.types := b
     distinguishes two adjacent fields of the same wire type). -/
 theorem generated_fields_eq_rfc : GoNfsd.Gen.Xdr.fields = GoNfsd.Spec.Rfc1813.fields := by decide
 
+/-- Every constant of the generated types file — all status codes (nfsstat3, mountstat3), file
+    types, the stable_how / createmode3 / time_how values, sizes, program, version and procedure
+    numbers, access and property bits — has the value RFC 1813 gives it. -/
+theorem constants_eq_rfc : GoNfsd.Gen.Xdr.consts = GoNfsd.Spec.Rfc1813.consts := by decide
+
 /-- Every procedure number of both programs reaches the handler of that procedure, decodes the
     RFC's argument type and encodes the RFC's result type. -/
 theorem dispatch_eq_rfc : GoNfsd.Gen.Dispatch.procs = GoNfsd.Spec.Rfc1813.procs := by decide
